@@ -5,7 +5,7 @@ From V.lib Require Import Base.
 From V.c19 Require Import C19Model C19Spec C19InvProofs C19TrackProofs C19DescProofs C19ElngProofs C19ScopeProofs C19Witness.
 From V.c19 Require Import C19RecModel C19RecProofs C19RecLinkProofs.
 From V.c01 Require Import C01Codec C01Model.
-From V.c19 Require Import C19TreeModel C19TreeProofs C19TreeScopeProofs.
+From V.c19 Require Import C19TreeModel C19TreeProofs C19TreeScopeProofs C19LeafProofs.
 
 
 (* For EVERY op sequence (any arguments, including calls that return an error or panic; the history stops
@@ -345,6 +345,70 @@ Theorem C19_roundtrip_partial :
 Proof. exact small_scope_roundtrip. Qed.
 Print Assumptions C19_roundtrip_partial.
 
+(* print-then-parse of the boxes whose fields carry the ARGUMENTS of the calls, for ALL in-range values (C01's
+   decoders on C01's encoders with the reserved bytes the Go encoders write): the next-track id (mvhd), the track id
+   (trex, tkhd), volume / width / height (tkhd), timescale and packed language (mdhd), the entry count (stsd), and the
+   sample entry prefixes (name, data reference index, width/height resp. channels/sample size/sample rate).  Together
+   with C19_elng_roundtrip, C19_stpp_roundtrip, C19_avcrec_roundtrip, C19_hvcrec_roundtrip these are all the
+   argument-dependent bytes of an init segment; every other box is a constant of the constructors and is covered by
+   C19_roundtrip_partial.  What is missing for the full C19_roundtrip is the composition through C01's generic
+   decode_box (header, dispatch tables, child loops and their size accounting). *)
+Theorem C19_box_roundtrip_mvhd :
+  forall f ts du rate vol nt r2,
+    f < 16777216 -> ts < 4294967296 -> du < 4294967296 -> rate < 4294967296 -> vol < 65536 -> nt < 4294967296 ->
+    forall h b, body_leaf (LMvhd 0 f 0 0 ts du rate vol nt) (dflt_rsv (LMvhd 0 f 0 0 ts du rate vol nt)) = Ok b ->
+      dec_mvhd h (b ++ r2) = Ok ((LMvhd 0 f 0 0 ts du rate vol nt, dflt_rsv (LMvhd 0 f 0 0 ts du rate vol nt)), r2).
+Proof. exact pp_mvhd. Qed.
+Print Assumptions C19_box_roundtrip_mvhd.
+
+Theorem C19_box_roundtrip_trex :
+  forall f tid dsdi dur sz sf r2,
+    f < 16777216 -> tid < 4294967296 -> dsdi < 4294967296 -> dur < 4294967296 -> sz < 4294967296 -> sf < 4294967296 ->
+    forall h b, body_leaf (LTrex 0 f tid dsdi dur sz sf) (dflt_rsv (LTrex 0 f tid dsdi dur sz sf)) = Ok b ->
+      dec_trex h (b ++ r2) = Ok ((LTrex 0 f tid dsdi dur sz sf, dflt_rsv (LTrex 0 f tid dsdi dur sz sf)), r2).
+Proof. exact pp_trex. Qed.
+Print Assumptions C19_box_roundtrip_trex.
+
+Theorem C19_box_roundtrip_tkhd :
+  forall f tid du layer ag vol wd ht r2,
+    f < 16777216 -> tid < 4294967296 -> du < 4294967296 -> layer < 65536 -> ag < 65536 -> vol < 65536 ->
+    wd < 4294967296 -> ht < 4294967296 ->
+    forall h b, body_leaf (LTkhd 0 f 0 0 tid du layer ag vol wd ht) (dflt_rsv (LTkhd 0 f 0 0 tid du layer ag vol wd ht)) = Ok b ->
+      dec_tkhd h (b ++ r2) = Ok ((LTkhd 0 f 0 0 tid du layer ag vol wd ht, dflt_rsv (LTkhd 0 f 0 0 tid du layer ag vol wd ht)), r2).
+Proof. exact pp_tkhd. Qed.
+Print Assumptions C19_box_roundtrip_tkhd.
+
+Theorem C19_box_roundtrip_mdhd :
+  forall f ts du lang r2,
+    f < 16777216 -> ts < 4294967296 -> du < 4294967296 -> lang < 65536 ->
+    forall h b, body_leaf (LMdhd 0 f 0 0 ts du lang) (dflt_rsv (LMdhd 0 f 0 0 ts du lang)) = Ok b ->
+      dec_mdhd h (b ++ r2) = Ok ((LMdhd 0 f 0 0 ts du lang, dflt_rsv (LMdhd 0 f 0 0 ts du lang)), r2).
+Proof. exact pp_mdhd. Qed.
+Print Assumptions C19_box_roundtrip_mdhd.
+
+Theorem C19_box_roundtrip_stsd :
+  forall f cnt r2, f < 16777216 -> cnt < 4294967296 ->
+    forall h b, body_leaf (LStsd 0 f cnt) (dflt_rsv (LStsd 0 f cnt)) = Ok b ->
+      dec_stsd h (b ++ r2) = Ok ((LStsd 0 f cnt, dflt_rsv (LStsd 0 f cnt)), r2).
+Proof. exact pp_stsd. Qed.
+Print Assumptions C19_box_roundtrip_stsd.
+
+Theorem C19_box_roundtrip_visual :
+  forall name dri w ht hres vres fc cn r2,
+    dri < 65536 -> w < 65536 -> ht < 65536 -> hres < 4294967296 -> vres < 4294967296 -> fc < 65536 -> lenN cn <= 31 ->
+    forall sz b, body_leaf (LVisual name dri w ht hres vres fc cn) (dflt_rsv (LVisual name dri w ht hres vres fc cn)) = Ok b ->
+      dec_visual (mkHdr name sz 8) (b ++ r2)
+      = Ok ((LVisual name dri w ht hres vres fc cn, dflt_rsv (LVisual name dri w ht hres vres fc cn)), r2).
+Proof. exact pp_visual. Qed.
+Print Assumptions C19_box_roundtrip_visual.
+
+Theorem C19_box_roundtrip_audio :
+  forall name dri ch ss sr r2, dri < 65536 -> ch < 65536 -> ss < 65536 -> sr < 65536 ->
+    forall sz b, body_leaf (LAudio name dri ch ss sr) (dflt_rsv (LAudio name dri ch ss sr)) = Ok b ->
+      dec_audio (mkHdr name sz 8) (b ++ r2) = Ok ((LAudio name dri ch ss sr, dflt_rsv (LAudio name dri ch ss sr)), r2).
+Proof. exact pp_audio. Qed.
+Print Assumptions C19_box_roundtrip_audio.
+
 (* Outside the quantifier (history starting from a DECODED init), reproduced on the real code by the harness:
    AddEmptyTrack repeats an id when the decoded ids are not 1..n, and does not keep the traks together when the
    first moov child is a trak (lastTrakIdx = 0 is read as "no trak"). *)
@@ -424,3 +488,10 @@ Proof.
   split; [exact small_scope_size|]. split; [|vm_compute; reflexivity].
   apply nth_In. pose proof small_scope_size as Z. unfold lenN in Z. lia.
 Qed.
+
+(* the values CreateEmptyTrak / CreateVisualSampleEntryBox write are in the ranges of the box round trips *)
+Example C19_box_roundtrip_hyp :
+  lenN compressor_name <= 31 /\ 4718592 < 4294967296
+  /\ exists b, body_leaf (LTkhd 0 7 0 0 3 0 0 0 256 83886080 47185920) (dflt_rsv (LTkhd 0 7 0 0 3 0 0 0 256 83886080 47185920)) = Ok b
+              /\ lenN b = 84.
+Proof. split; [vm_compute; discriminate|]. split; [reflexivity|]. eexists. split; [reflexivity|]. vm_compute. reflexivity. Qed.
